@@ -319,53 +319,123 @@ def r2(ctx):
                   "state allocated in reverse layer order (matches the update walk)")
 
 
+def _strip_upd(t):
+    """drop `upd` wrappers (a value after an unrelated in-place change of one of its fields) for structural comparison"""
+    if isinstance(t, tuple):
+        if t and t[0] == "upd":
+            return _strip_upd(t[1])
+        return tuple(_strip_upd(x) for x in t)
+    return t
+
+
 def r3(ctx):
+    """builder chaining, decided on E6 summaries: on every non-panicking path of Network::{dense,convolution,deconvolution,maxpool}
+    the `inputs` argument of the created layer is self.input when there is no layer yet, otherwise the *outputs* of the last layer
+    (field or Layer::outputs() accessor); a dense layer after a 3-D producer takes Single(ch*he*wi) and sets that layer's flatten flag."""
+    from .. import e6
     c = ctx.crate
     variants = [v["name"] for v in c.adts["network::Layer"]["variants"]]
-    for b in ("dense", "convolution", "deconvolution", "maxpool", "feedback"):
+    payload_ty = {v["name"]: v["fields"][0]["ty"] for v in c.adts["network::Layer"]["variants"]}
+    # the accessor itself
+    acc = c.fn("network::Layer::outputs")
+    acc_ok = False
+    if acc is not None:
+        Ea = e6.Exec(c, acc)
+        pa = [p for p in Ea.run_fn() if p.exit is None or p.exit[0] == "return"]
+        acc_ok = bool(pa)
+        for p in pa:
+            vs = e6.variant_of(p)
+            val = p.val if p.exit is None else p.exit[1]
+            if len(vs) != 1 or val != ("field", ("payload", ("p", "self"), list(vs.values())[0], 0), "outputs"):
+                acc_ok = False
+    for b, created in (("dense", "dense::Dense"), ("convolution", "convolution::Convolution"), ("deconvolution", "deconvolution::Deconvolution"),
+                       ("maxpool", "maxpool::Maxpool"), ("feedback", None)):
         fn = ctx.fn("network::Network::" + b)
-        ms = [x for x in walk(fn["body"]) if x.get("k") == "match" and "self.layers.last" in pretty(x["scrut"])]
-        if not ms:
-            raise Unestablished("Network::%s does not inspect self.layers.last()" % b, c.loc(fn))
-        for m in ms:
-            seen = set()
-            for arm in m["arms"]:
-                vp, binds = e4.arm_variant(arm)
-                kind = vp.split("::")[-1]
-                if not vp.startswith("network::Layer::") or not binds:
+        E = e6.Exec(c, fn)
+        paths = [p for p in E.run_fn() if p.exit is None or p.exit[0] == "return"]
+        seen = {}
+        first_ok = None
+        for p in paths:
+            # the shape handed to the created layer(s)
+            if created is not None:
+                cr = e6.find_terms(tuple(p.eff), lambda t: t[0] == "call" and t[1] == created + "::create")
+                if len(cr) != 1:
+                    seen.setdefault("?", []).append("no single %s::create on a path" % created)
                     continue
-                seen.add(kind)
-                lh = binds[0][1]
-                flds = sorted({x["f"] for x in walk(arm["body"]) if x.get("k") == "field" and e4.local_hid(x["b"]) == lh})
-                inst = "%s:%s" % (b, kind)
-                where = c.loc(fn, arm["body"])
-                shape_fields = [f for f in flds if f in ("inputs", "outputs")]
-                ctx.check("R08.3", inst, shape_fields == ["outputs"], "chained-from:" + ",".join(shape_fields), where, "next inputs from previous %s.outputs" % kind,
-                          "Network::%s derives the new layer's input shape from `%s` of a preceding %s layer; it must be its outputs" % (b, ",".join(shape_fields), kind))
-                if b == "dense" and kind in ("Convolution", "Deconvolution", "Maxpool"):
-                    fl = [x for x in walk(arm["body"]) if x.get("k") == "assign" and strip(x["l"]).get("k") == "field" and strip(x["l"])["f"] == "flatten" and e4.lit_value(x["r"]) == "true"]
-                    prod = [x for x in walk(arm["body"]) if x.get("k") == "call" and x["callee"] == "tensor::Shape::Single"]
-                    okp = False
-                    if prod:
-                        pb = None
-                        for y in walk(arm["body"]):
-                            if y.get("k") == "match":
-                                for a2 in y["arms"]:
-                                    v2, b2 = e4.arm_variant(a2)
-                                    if v2 == "tensor::Shape::Triple":
-                                        pb = b2
-                        if pb and len(pb) == 3:
-                            env = {h: Rat.atom(n_) for (n_, h) in pb}
-                            val = e1.Norm(c, env).norm(prod[0]["args"][0])
-                            okp = val == Rat.atom(pb[0][0]) * Rat.atom(pb[1][0]) * Rat.atom(pb[2][0])
-                    ctx.check("R08.3", inst + ":flatten", len(fl) == 1 and okp, "dense-after-spatial:flatten=%d,product=%s" % (len(fl), okp), where,
-                              "sets flatten and uses ch*he*wi", "dense after %s must set the flatten flag and take ch*he*wi inputs" % kind)
-            for v in variants:
-                if v not in seen:
-                    ctx.bad("R08.3", "%s:%s" % (b, v), "variant-not-handled", c.loc(fn, m), "")
-        first = [x for x in walk(fn["body"]) if x.get("k") == "mcall" and x["name"] == "clone" and pretty(strip(x["recv"])) == "self.input"]
-        ctx.check("R08.3", b + ":first-layer", bool(first), "first-layer-input", c.loc(fn), "first layer takes self.input")
-    ctx.floor("R08.3", 25 + 3 + 5, "5 builders x 5 variants + 3 flatten arms + 5 first-layer facts")
+                inputs = _strip_upd(cr[0][2][0])
+            else:
+                # feedback: the shape variable read by the creates inside the loop over the layer descriptions, at loop entry
+                inputs = None
+                for e in p.eff:
+                    if e[0] == "loop" and E.loop_summaries[e[1]].get("kind") == "for":
+                        names = set()
+                        for bp in E.loop_summaries[e[1]]["paths"]:
+                            for t in e6.find_terms(tuple(bp.eff), lambda t: t[0] == "call" and t[1].endswith("::create")):
+                                a0 = t[2][0]
+                                if isinstance(a0, tuple) and a0 and a0[0] == "loopin":
+                                    names.add(a0[1])
+                        if len(names) == 1:
+                            nm = list(names)[0]
+                            for v_ in p.env.values():
+                                if isinstance(v_, tuple) and len(v_) == 4 and v_[0] == "loopout" and v_[1] == nm and v_[2] == e[1]:
+                                    inputs = _strip_upd(v_[3])
+                if inputs is None:
+                    seen.setdefault("?", []).append("cannot locate the shape flowing into the block")
+                    continue
+            # which situation is this path about?
+            lastv = [(t, pol) for (t, pol) in p.pc if isinstance(t, tuple) and t[0] == "is" and t[2].startswith("network::Layer::") and pol]
+            if not lastv:
+                empty = any((e6.is_call(t, "is_empty", 1) is not None and pol) or (isinstance(t, tuple) and t[0] == "is" and t[2] == "Option::None" and pol)
+                            or (isinstance(t, tuple) and t[0] == "is" and t[2] == "Option::Some" and not pol) for (t, pol) in p.pc)
+                if empty:
+                    ok1 = inputs == ("field", ("p", "self"), "input")
+                    first_ok = ok1 if first_ok is None else (first_ok and ok1)
+                    continue
+                # no variant test at all: the previous layer is read through the accessor
+                prev = [t for t in e6.find_terms(inputs, lambda t: t[0] == "call" and t[1] == "network::Layer::outputs")]
+                if prev and inputs == prev[0] and acc_ok:
+                    for v in variants:
+                        seen.setdefault(v, []).append(None)
+                    continue
+                seen.setdefault("?", []).append("a path neither tests for an empty network nor looks at the last layer: inputs = %s" % e6.show(inputs, 2)[:80])
+                continue
+            T, vp = _strip_upd(lastv[-1][0][1]), lastv[-1][0][2]
+            kind = vp.split("::")[-1]
+            pay = ("payload", T, vp, 0)
+            outs = ("field", pay, "outputs")
+            why = None
+            if inputs == outs or inputs == ("call", "network::Layer::outputs", (T,)):
+                pass
+            else:
+                sg = inputs if isinstance(inputs, tuple) and inputs and inputs[0] == "var" and inputs[1] == "tensor::Shape::Single" else None
+                if sg is None and isinstance(inputs, tuple) and inputs and inputs[0] == "call" and inputs[1] == "tensor::Shape::Single":
+                    sg = ("var", inputs[1], inputs[2])
+                prod_ok = False
+                if sg is not None and b == "dense":
+                    comps = [("payload", outs, "tensor::Shape::Triple", i_) for i_ in range(3)]
+                    want = e6.mk_bin("Mul", e6.mk_bin("Mul", comps[0], comps[1]), comps[2])
+                    alts = {repr(e6.mk_bin("Mul", e6.mk_bin("Mul", comps[a_], comps[b_]), comps[c_])) for (a_, b_, c_) in ((0, 1, 2), (0, 2, 1), (1, 2, 0))}
+                    alts |= {repr(e6.mk_bin("Mul", comps[a_], e6.mk_bin("Mul", comps[b_], comps[c_]))) for (a_, b_, c_) in ((0, 1, 2), (1, 0, 2), (2, 0, 1))}
+                    prod_ok = repr(_strip_upd(sg[2][0])) in alts
+                    fl = [e for e in p.eff if e[0] == "set" and isinstance(e[1], tuple) and e[1][0] == "field" and e[1][2] == "flatten" and e[2] == ("lit", "true")]
+                    if not (prod_ok and len(fl) == 1):
+                        why = "dense after %s: inputs = %s, flatten flag set %d time(s)" % (kind, e6.show(inputs, 2)[:80], len(fl))
+                else:
+                    why = "inputs = %s" % e6.show(inputs, 2)[:100]
+            seen.setdefault(kind, []).append(why)
+        for v in variants:
+            res = seen.get(v)
+            inst = "%s:%s" % (b, v)
+            if not res:
+                ctx.bad("R08.3", inst, "variant-not-handled", c.loc(fn), "no non-panicking path of Network::%s follows a %s layer" % (b, v))
+                continue
+            bad = [w for w in res if w]
+            ctx.check("R08.3", inst, not bad, "chained-from:" + short("; ".join(bad), 80), c.loc(fn), "next inputs from previous %s outputs" % v,
+                      "Network::%s after a %s layer: %s; the new layer's input shape must be the previous layer's outputs" % (b, v, "; ".join(bad)))
+        for w in seen.get("?", []):
+            ctx.bad("R08.3", b + ":paths", "unclassified-path", c.loc(fn), w)
+        ctx.check("R08.3", b + ":first-layer", first_ok is True, "first-layer-input", c.loc(fn), "first layer takes self.input")
+    ctx.floor("R08.3", 25 + 5, "5 builders x 5 variants + 5 first-layer facts")
 
 
 SIZE_FNS = ["convolution::Convolution::calculate_output_size", "deconvolution::Deconvolution::calculate_output_size", "maxpool::Maxpool::calculate_output_size",
